@@ -116,13 +116,31 @@ def simulate_histories(scen, fam, prof, num, depth=12):
     return [hists[k] for k in sorted(hists)], stats
 
 
+def _aggs_of(scen, fam):
+    aggs = ["None", "monthly"] if fam == "billing" and scen in ("store",) else ["None"]
+    if fam == "billing" and scen == "gate":
+        aggs = ["None", "weekly"]
+    return aggs
+
+
+def enum_key(scen, fam, prof):
+    """Instances of the bounded model that differ only in the family / profile NAME enumerate the same histories: the model
+    depends on the family through `Fam \in GatedFams`, the aggregation set and the seed set only."""
+    return (scen, fam in ("daily", "billing", "hourly"), tuple(_aggs_of(scen, fam)), scen == "warm" and fam == "hourly")
+
+
+def rename_histories(hists, fam, prof):
+    out = []
+    for h in hists:
+        out.append([dict(a, fam=fam, prof=prof) if a.get("op") == "new" else a for a in h])
+    return out
+
+
 def enumerate_histories(scen, fam, prof):
     """Run TLC on the scenario; return (maximal histories, TLC stats)."""
     if SCENARIOS[scen].get("simulate"):
         return simulate_histories(scen, fam, prof, SIM_NUM["n"])
-    aggs = ["None", "monthly"] if fam == "billing" and scen in ("store",) else ["None"]
-    if fam == "billing" and scen == "gate":
-        aggs = ["None", "weekly"]
+    aggs = _aggs_of(scen, fam)
     tag = "life_%s_%s_%s" % (scen, fam, prof)
     cfg = "gen_%s.cfg" % tag
     with open(os.path.join(tlc.SPEC, cfg), "w") as f:
@@ -316,8 +334,19 @@ def run_property(prop, tier, scen_list, per_scen, assumptions, rule, extra_jobs=
     tid = 0
     combos = [(scen, fam, prof) for scen, fams in scen_list for fam, prof in fams]
     from concurrent.futures import ThreadPoolExecutor
+    # one TLC run per distinct instance of the bounded model (enum_key); the histories are renamed for the other families
+    firsts = {}
+    for c in combos:
+        firsts.setdefault(enum_key(*c), c)
     with ThreadPoolExecutor(max_workers=4) as ex:          # the TLC runs are independent JVMs
-        enumerated = list(ex.map(lambda c: enumerate_histories(*c), combos))
+        done = dict(zip(firsts.keys(), ex.map(lambda c: enumerate_histories(*c), firsts.values())))
+    enumerated = []
+    for c in combos:
+        hists, st = done[enum_key(*c)]
+        if firsts[enum_key(*c)] == c:
+            enumerated.append((hists, st))
+        else:
+            enumerated.append((rename_histories(hists, c[1], c[2]), dict(st, states=0, transitions=0, shared_with="%s/%s/%s" % firsts[enum_key(*c)])))
     for (scen, fam, prof), (hists, st) in zip(combos, enumerated):
             mstats["%s/%s/%s" % (scen, fam, prof)] = st
             r = common.rng("pick", prop, scen, fam, prof)
@@ -406,6 +435,6 @@ def run_property(prop, tier, scen_list, per_scen, assumptions, rule, extra_jobs=
             cov["states"] += st["states"]
             cov["transitions"] += st["transitions"]
     common.write_evidence(prop, tier, cov, t(), nviol, assumptions)
-    print("%s %s: %d TLC model runs (%d states), %d histories replayed, %d calls validated, %d rejected steps, %d violations, %.1fs" % (
-        prop, tier, len(mstats), cov["states"], len(jobs), nev, len(rejects), nviol, t()))
+    print("%s %s: %d instances of the bounded model (%d states), %d histories replayed, %d calls validated, %d rejected steps, %d violations, %.1fs" % (
+        prop, tier, len({enum_key(*c) for c in combos}), cov["states"], len(jobs), nev, len(rejects), nviol, t()))
     return 1 if nviol else 0
